@@ -6,7 +6,7 @@ from scipy.integrate import solve_ivp
 from vf import gen, ref, sbmlgen
 
 ID = 'C09'
-BUDGET = {'quick': 900, 'thorough': 40000}
+BUDGET = {'quick': 2000, 'thorough': 40000}
 RULE = (
     'Hypothesis draws (i) generated SBML files: linear compartmental models with 1-3 compartments (one amount '
     'species each) and 0-4 global rate-rule states, identifiers drawn from a mixed-case pool (alphabetical order != '
@@ -25,7 +25,7 @@ ASSUMPTIONS = [
     'through expm; library models: hand-coded documented equations integrated with DOP853 at rtol 1e-12',
     "myokit's SBML importer naming convention (c.s_amount, c.size, global.p)"]
 REQUIRED = ['gen', 'lib:pk', 'lib:koch', 'lib:koch_r', 'lib:erlotinib', 'sens', 'reduced', 'renamed', 'tied_times',
-            'intermediate_output', 'order_differs', 'model_order_differs', 'derived_const']
+            'intermediate_output', 'order_differs', 'model_order_differs', 'derived_const', 'refix', 'refix:same_count']
 LIBS = ['pk', 'koch', 'koch_r', 'erlotinib']
 
 
@@ -60,15 +60,27 @@ def _spec(draw):
         k = draw(st.integers(1, len(cands)))
         outputs = list(draw(st.permutations(cands))[:k])
     fixed = None
-    if len(names) >= 2 and gen.chance(draw, 0.3):
+    if len(names) >= 2 and gen.chance(draw, 0.4):
         idx = draw(gen.subset(len(names), min_size=1, max_size=len(names) - 1))
         fixed = {str(i): theta[i] for i in idx}
     rename = None
     if gen.chance(draw, 0.25):
         rename = dict(params=sorted(draw(gen.subset(len(names), min_size=1))),
                       outputs=draw(st.booleans()))
+    refix = None
+    if fixed is not None and gen.chance(draw, 0.6):
+        # a later fix_parameters call on the reduced model: release some fixed parameters and fix some free ones in
+        # ONE call (the number of free parameters may or may not change)
+        fx = sorted(int(i) for i in fixed)
+        fr = [i for i in range(len(names)) if i not in fx]
+        rel = [fx[j] for j in draw(gen.subset(len(fx), min_size=0, max_size=len(fx)))]
+        add = [fr[j] for j in draw(gen.subset(len(fr), min_size=0, max_size=len(fr)))]
+        if gen.chance(draw, 0.5) and fx and fr:
+            rel, add = [draw(st.sampled_from(fx))], [draw(st.sampled_from(fr))]         # plain swap
+        if len(fx) - len(rel) + len(add) < len(names) and (rel or add):
+            refix = dict(release=rel, fix=add)
     return dict(src='gen', ms=ms, theta=theta, times=times, tied=tied, sens=sens, outputs=outputs,
-                fixed=fixed, rename=rename)
+                fixed=fixed, rename=rename, refix=refix)
 
 
 def strategy(tier):
@@ -86,6 +98,8 @@ def classify(spec):
             labs.append('reduced')
         if spec['rename']:
             labs.append('renamed')
+        if spec.get('refix'):
+            labs.append('refix')
         if ms['derived']:
             labs.append('derived_const')
         if spec['outputs'] and any(o in sbmlgen.intermediate_qnames(ms) for o in spec['outputs']):
@@ -112,7 +126,7 @@ def structure(spec):
     if spec['src'] == 'lib':
         return ['lib', spec['lib'], spec['sens'], len(spec['times']), spec['tied']]
     return ['gen', sbmlgen.structure(spec['ms']), spec['outputs'], spec['sens'],
-            sorted(spec['fixed']) if spec['fixed'] else None, spec['rename'], spec['tied']]
+            sorted(spec['fixed']) if spec['fixed'] else None, spec['rename'], spec['tied'], spec.get('refix')]
 
 
 # ---- library models: documented equations, hand-coded --------------------------------------
@@ -296,6 +310,36 @@ def check(case):
             ws = _cgrad_outputs(lambda z: sbmlgen.ref_simulate(ms, full(z), times, outputs), theta[free])
             case.close(sens, ws, rtol=1e-5, atol=1e-8,
                        what='d output / d (free) parameter, columns in published order')
-            obj.enable_sensitivities(False)
-            again = np.asarray(obj.simulate(theta[free].copy(), times.copy()), dtype=float)
-            case.close(again, want, rtol=1e-6, atol=1e-9, what='outputs after disabling sensitivities')
+            if not s.get('refix'):
+                obj.enable_sensitivities(False)
+                again = np.asarray(obj.simulate(theta[free].copy(), times.copy()), dtype=float)
+                case.close(again, want, rtol=1e-6, atol=1e-9, what='outputs after disabling sensitivities')
+
+    if s.get('refix'):
+        rf = s['refix']
+        with case.clause('refix'):
+            d = {pub_names[i]: None for i in rf['release']}
+            d.update({pub_names[i]: float(theta[i]) for i in rf['fix']})
+            obj.fix_parameters(d)
+            still = [int(i) for i in s['fixed'] if int(i) not in rf['release']] + list(rf['fix'])
+            free = [i for i in range(len(names)) if i not in still]
+            if len(free) == len(s['fixed']) and rf['release'] and rf['fix']:
+                case.labels.append('refix:same_count')
+            case.equal(obj.parameters(), [pub_names[i] for i in free], 'free parameter names after the second '
+                                                                       'fix_parameters call')
+            case.equal(obj.n_parameters(), len(free), 'free parameter count after the second fix_parameters call')
+            res = obj.simulate(theta[free].copy(), times.copy())
+            if s['sens']:
+                case.true(obj.has_sensitivities(), 'sensitivities were switched off by fix_parameters')
+                out, sens = res
+                sens = np.asarray(sens, dtype=float)
+                case.equal(sens.shape, (len(times), len(outputs), len(free)), 'sensitivity shape after the second '
+                                                                             'fix_parameters call', kind='shape')
+                ws = _cgrad_outputs(lambda z: sbmlgen.ref_simulate(ms, full(z), times, outputs), theta[free])
+                case.close(sens, ws, rtol=1e-5, atol=1e-8, what='d output / d (free) parameter after releasing %s '
+                           'and fixing %s in one call' % ([pub_names[i] for i in rf['release']],
+                                                          [pub_names[i] for i in rf['fix']]))
+            else:
+                out = res
+            case.close(np.asarray(out, dtype=float), want, rtol=1e-6, atol=1e-9,
+                       what='outputs after the second fix_parameters call')
